@@ -1,1 +1,100 @@
-fn main() { eprintln!("not built yet"); std::process::exit(2) }
+//! E3 `conc`: multi-threaded history recorder + offline checkers. Serves C05, C15, C18.
+
+mod c05;
+mod c15;
+mod c18;
+mod delays;
+
+use pv::{run::main_entry, Ctx, Report, Rng, Spec, Tier};
+
+fn spec_for(prop: &str, _tier: Tier) -> Option<Spec> {
+	Some(match prop {
+		"C05" => {
+			let mut s = Spec::new(
+				"C05",
+				"exploration",
+				"A case is one multi-threaded history (2-4 s): real background workers, 2 committer threads each owning a disjoint key set in a uniform hash column and a btree column (so the version order of every key is its owner's program order), every value carrying (owner, version, key, size class padding), 4 reader threads, a filler thread forcing index growth in the readers' index page, seeded delays at the library's yield hooks. Readers sample completed[owner] before and started[owner] after each get; the offline checker (linear, per key) accepts a read iff some version in [max(completed-before, seen-by-this-reader), started-after] has the observed writer as last writer of the key, then raises seen. evaluations = reads checked; distinct_nontrivial = distinct (column, result class, window width bucket, pipeline location of the newest owner version at the time, always_flush) classes among reads with a window of more than one version.",
+			)
+			.require("reads_checked", 200_000)
+			.require("reads_nontrivial_window", 20_000)
+			.require("reads_newest", 1000)
+			.require("reads_older_feasible", 1000)
+			.require("index_growths", 1)
+			.require("yield_hits", 1000)
+			.require("size_class_moves", 1000)
+			.budget(75, 900);
+			s.assumptions.push("owner-partitioned keys make the version order exact; window bounds are sampled outside the call interval (conservative)".into());
+			s
+		},
+		"C15" => {
+			let mut s = Spec::new(
+				"C15",
+				"exploration",
+				"A case is one scenario with live workers: clients faster and slower than the workers (seeded delays at the wait/signal and hand-over yield hooks), many tiny commits, transactions of 1-20 MiB crossing the 16 MiB commit-queue limit with 2-3 throttled committers, index growth in progress, always_flush on/off; then the handle is dropped and the database reopened. Bounded-progress oracle: every commit call returns, the queue empties and (with always_flush) everything is enacted without further client activity, drop returns - each within 60 s of the last observed progress; a stall (no status counter moved, no commit returned for 60 s while work is pending) is the refuting event and is reported with the thread states. After reopen every committed key must be present (all data persisted). evaluations = progress conditions evaluated; distinct_nontrivial = distinct (scenario kind, throttling observed, always_flush, delay profile) classes.",
+			)
+			.require("commits_returned", 2000)
+			.require("drops_completed", 20)
+			.require("queue_full_throttles", 1)
+			.require("drained_checks", 20)
+			.require("persisted_checks", 20)
+			.budget(75, 900);
+			s.case_timeout_s = 90;
+			s.hang_is_violation = true;
+			s.assumptions.push("'always' is decided as bounded progress: a stall of 60 s with pending work counts as never".into());
+			s
+		},
+		"C18" => Spec::new(
+			"C18",
+			"exploration",
+			"A case is one directory on which T threads and P child processes loop open -> (idle) -> drop, one variant with a long log replay so that a second open races the first open's recovery, children also killed with SIGKILL while holding the handle. A harness-side counter is raised after open returned Ok and lowered before drop is called: counter > 1 is a violation; every failed open must be a lock error and leave the directory content unchanged; after drop / kill the next open must succeed. evaluations = open attempts judged; distinct_nontrivial = distinct (opener kind, holder kind, outcome, replay pending) classes.",
+		)
+		.require("open_attempts", 2000)
+		.require("open_ok", 200)
+		.require("open_locked", 500)
+		.require("cross_process_locked", 50)
+		.require("reopen_after_kill", 5)
+		.require("race_with_recovery", 5)
+		.budget(60, 600),
+		_ => return None,
+	})
+}
+
+fn shard(ctx: &Ctx, rep: &mut Report) {
+	let mut seeder = Rng::new(ctx.seed ^ 0xE3E3);
+	if let Some(j) = &ctx.replay {
+		let case_seed = j.get("case_seed").and_then(|x| x.as_u64()).expect("case_seed");
+		let variant = j.get("variant").and_then(|x| x.as_u64()).unwrap_or(0);
+		run_one(ctx, rep, case_seed, variant);
+		return
+	}
+	let mut i = 0u64;
+	while ctx.elapsed_frac() < 0.75 {
+		let case_seed = seeder.next() >> 2;
+		let variant = ctx.shard as u64 + i * ctx.nshards as u64;
+		run_one(ctx, rep, case_seed, variant);
+		rep.cases += 1;
+		ctx.checkpoint(rep);
+		i += 1;
+		if rep.get("violations_raw") >= 6 {
+			break
+		}
+	}
+}
+
+fn run_one(ctx: &Ctx, rep: &mut Report, case_seed: u64, variant: u64) {
+	match ctx.prop.as_str() {
+		"C05" => c05::run_case(ctx, rep, case_seed, variant),
+		"C15" => c15::run_case(ctx, rep, case_seed, variant),
+		"C18" => c18::run_case(ctx, rep, case_seed, variant),
+		_ => {},
+	}
+}
+
+fn main() {
+	// child helper of C18: `pdbv-conc --c18-child <dir> <mode> ...`
+	let a: Vec<String> = std::env::args().collect();
+	if a.len() > 1 && a[1] == "--c18-child" {
+		c18::child_main(&a[2..]);
+	}
+	main_entry(spec_for, shard)
+}
